@@ -87,7 +87,9 @@ where
         F: Fn(char) -> bool,
     {
         let mut results: Vec<ResultTextSelection<'store>> = Vec::with_capacity(fragments.len());
-        let mut begin: usize = 0;
+        //matches carry absolute positions, self.textselection() takes positions relative to this text
+        let selfbegin: usize = self.absolute_cursor(0);
+        let mut begin: usize = selfbegin;
         let mut textselectionresult = self.textselection(&Offset::whole());
         for fragment in fragments {
             if let Ok(searchtext) = textselectionresult {
@@ -99,7 +101,10 @@ where
                     if m.begin() > begin {
                         //we skipped some text since last match, check the characters in between matches
                         let skipped_text = self
-                            .textselection(&Offset::simple(begin, m.begin()))
+                            .textselection(&Offset::simple(
+                                begin - selfbegin,
+                                m.begin() - selfbegin,
+                            ))
                             .expect("textselection must succeed")
                             .text();
                         for c in skipped_text.chars() {
